@@ -37,7 +37,12 @@ RULE = ("property stream: emulsions of 1..4 sharp spheres with dyadic centres/ra
         "cylindrical grids (regular, narrow and finely sliced, flat and wide, tiny; droplets touching the z faces); every image is located a second time "
         "as float32 / int64 / uint8 / bool data and with a minimal_radius boundary value (must reproduce the reference call resp. the documented filter); "
         "non-trivial = at least one droplet crosses a periodic boundary or >= 2 droplets; "
-        "plus all single-droplet placements on a 1/4-cell sub-lattice of a 5x6 periodic grid (thorough) and a precondition-violating stream")
+        "plus all single-droplet placements on a 1/4-cell sub-lattice of a 5x6 periodic grid (thorough) and a precondition-violating stream; "
+        "sequences (state kept between calls): per grid family groups of emulsions that share shape, droplet count, radii and total volume but differ in "
+        "the centres or the grid, rendered and located with both locators on REUSED grid / emulsion / field objects (same call twice, interleaved, after "
+        "calls that raise, series of up to 14 images on one grid object), compared bitwise with fresh objects evaluated first in a fresh interpreter and "
+        "judged by the property oracle; arguments and the grid's cached arrays compared with a fresh equal grid after every call; all outputs kept alive, "
+        "checked for shared memory, one of them modified in place")
 
 # Inputs on which the unchanged /repo does not satisfy the property text as written and that wait for a decision of the
 # lead: executed and reported in the evidence notes, NOT judged (notes/audit_task.md).
@@ -394,10 +399,176 @@ def oracle_cyl(grid, drops, mask, em):
     return None
 
 
+# ---- input dimension 8: state kept between calls (machinery in locate_common.py) ----------------------------------
+def _cart_spec(grid, drops, valid, per=None, shift=None):
+    b = [list(map(float, x)) for x in grid.axes_bounds]
+    if shift is not None:
+        b = [[lo + t, hi + t] for (lo, hi), t in zip(b, shift)]
+    return {"family": "cartesian", "bounds": b, "shape": [int(n) for n in grid.shape],
+            "periodic": [bool(p) for p in (grid.periodic if per is None else per)],
+            "droplets": [[[float(x) for x in c], float(r)] for c, r in drops], "valid": bool(valid)}
+
+
+def _cyl_spec(bounds, shape, per, drops, valid):
+    return {"family": "cylindrical", "bounds": [list(map(float, x)) for x in bounds], "shape": [int(n) for n in shape],
+            "periodic": [False, bool(per)], "droplets": [[[0.0, 0.0, float(c)], float(R)] for c, R in drops], "valid": bool(valid)}
+
+
+def _rad_spec(cls, rlo, dr, n, R):
+    dim = 2 if cls == "PolarSymGrid" else 3
+    return {"family": cls, "bounds": [[float(rlo), float(rlo + n * dr)]], "shape": [int(n)], "periodic": [False],
+            "droplets": [[[0.0] * dim, float(R)]], "valid": bool(rlo + dr / 2 < R <= rlo + n * dr)}
+
+
+def seq_groups(ctx, rng):
+    """collision groups of emulsions rendered on reused grids: the two leading members share shape, number of cells, number of
+    droplets, radii and total droplet volume, but differ in the centres or in the grid"""
+    groups = []
+    n_fam = ctx.scale(8, 16)
+    # ---- Cartesian
+    kinds = ["same grid, mirrored centres", "same emulsion in unwrapped coordinates", "periodicity mask differs",
+             "grid and emulsion translated together"]
+    shapes, tries = set(), 0
+    while len(groups) < n_fam and tries < 4000:
+        tries += 1
+        grid, drops, _info = gen_cart(rng, True)
+        if not drops or tuple(grid.shape) in shapes or any(covered_cells(grid, c, r).sum() == 0 for c, r in drops):
+            continue
+        shapes.add(tuple(grid.shape))
+        kind = kinds[len(groups) % 4]
+        per = [bool(p) for p in grid.periodic]
+        lo = [b[0] for b in grid.axes_bounds]
+        hi = [b[1] for b in grid.axes_bounds]
+        hs = [float(h) for h in grid.discretization]
+        mirror = lambda axes: [([lo[a] + hi[a] - x if a in axes else x for a, x in enumerate(c)], r) for c, r in drops]
+        if kind == "same emulsion in unwrapped coordinates" and not any(per):
+            kind = kinds[0]
+        if kind == kinds[0]:
+            m1 = _cart_spec(grid, mirror(range(grid.dim)), True)
+        elif kind == kinds[1]:
+            m1 = _cart_spec(grid, [([x + (rng.choice([-2, -1, 1, 3]) * (hi[a] - lo[a]) if per[a] else 0.0) for a, x in enumerate(c)], r)
+                                   for c, r in drops], True)
+        elif kind == kinds[2]:
+            per1 = list(per)
+            a = rng.randrange(grid.dim)
+            per1[a] = not per1[a]
+            m1 = _cart_spec(grid, drops, False, per=per1)
+        else:
+            t = [rng.choice([-5.25, 0.375, 2.5, 11.0]) for _ in range(grid.dim)]
+            m1 = _cart_spec(grid, [([x + t[a] for a, x in enumerate(c)], r) for c, r in drops], True, shift=t)
+        pa = [a for a in range(grid.dim) if per[a]]
+        extra1 = _cart_spec(grid, mirror([0]), True)
+        extra2 = _cart_spec(grid, [([x + (rng.randrange(1, 4) * hs[a] if a in pa else 0.0) for a, x in enumerate(c)], r) for c, r in drops], True) \
+            if pa else _cart_spec(grid, mirror([grid.dim - 1]), True)
+        more = []
+        if not any(g["family"] == "cartesian" for g in groups):   # one long series on a reused grid per family
+            for k in range(1, 6):
+                more.append(_cart_spec(grid, [([x + (k * hs[a] if a in pa else 0.0) for a, x in enumerate(c)], r) for c, r in drops], True))
+                more.append(_cart_spec(grid, [([x + (k * hs[a] if a in pa else 0.0) for a, x in enumerate(c)], r) for c, r in mirror([0])], True))
+        groups.append({"kind": kind, "family": "cartesian", "members": [_cart_spec(grid, drops, True), m1, extra1, extra2] + more})
+    # ---- cylindrical (mostly dz != 1: a factor applied once more per call must show)
+    kinds = ["same grid, mirrored along z", "periodic_z differs", "grid and emulsion translated together along z", "dr and dz swapped"]
+    shapes, tries, n0 = set(), 0, len(groups)
+    while len(groups) - n0 < n_fam and tries < 4000:
+        tries += 1
+        grid, drops, _info = gen_cyl(rng)
+        (_, R_out), (zlo, zhi) = grid.axes_bounds
+        nr, nz = grid.shape
+        dr, dz = R_out / nr, (zhi - zlo) / nz
+        if not drops or (nr, nz) in shapes or (dz == 1 and rng.random() < 0.8):
+            continue
+        rr = (np.arange(nr) + 0.5) * dr
+        zz = zlo + (np.arange(nz) + 0.5) * dz
+        if any(not np.any((rr[:, None] ** 2 + (zz[None, :] - c) ** 2) < R * R) for c, R in drops):
+            continue
+        shapes.add((nr, nz))
+        kind = kinds[(len(groups) - n0) % 4]
+        per = bool(grid.periodic[1])
+        b = [(0.0, R_out), (zlo, zhi)]
+        mirrored = [(zlo + zhi - c, R) for c, R in drops]
+        if kind == kinds[0]:
+            m1 = _cyl_spec(b, (nr, nz), per, mirrored, True)
+        elif kind == kinds[1]:
+            m1 = _cyl_spec(b, (nr, nz), not per, drops, per)   # periodic -> non-periodic keeps the separation
+        elif kind == kinds[2]:
+            t = rng.choice([-7.5, 0.375, 3.25])
+            m1 = _cyl_spec([(0.0, R_out), (zlo + t, zhi + t)], (nr, nz), per, [(c + t, R) for c, R in drops], True)
+        else:
+            m1 = _cyl_spec([(0.0, nr * dz), (zlo, zlo + nz * dr)], (nr, nz), per, drops, False)
+        ks = [k for k in range(-nz, nz + 1) if k != 0 and all(zlo + R <= c + k * dz <= zhi - R for c, R in drops)]
+        shifted = mirrored   # whole-cell shift along z where the z-range allows one
+        if ks:
+            k = rng.choice(ks)
+            shifted = [(c + k * dz, R) for c, R in drops]
+        more = []
+        if len(groups) == n0:   # one long series on a reused grid per family
+            more = [_cyl_spec(b, (nr, nz), per, [(c + k * dz, R) for c, R in drops], True) for k in ks[:10]]
+        groups.append({"kind": kind, "family": "cylindrical",
+                       "members": [_cyl_spec(b, (nr, nz), per, drops, True), m1, _cyl_spec(b, (nr, nz), per, mirrored, True),
+                                   _cyl_spec(b, (nr, nz), per, shifted, True)] + more})
+    # ---- polar / spherical
+    kinds = ["same grid, other radius", "PolarSymGrid vs SphericalSymGrid", "inner radius differs", "dr differs"]
+    sizes, tries, n0 = set(), 0, len(groups)
+    while len(groups) - n0 < n_fam and tries < 4000:
+        tries += 1
+        grid, R, _how = gen_radial(rng)
+        n = int(grid.shape[0])
+        if n in sizes:
+            continue
+        sizes.add(n)
+        cls = type(grid).__name__
+        rlo, rhi = map(float, grid.axes_bounds[0])
+        dr = (rhi - rlo) / n
+        kind = kinds[(len(groups) - n0) % 4]
+        other_R = lambda: dy(rng, rlo + dr / 2 + 1 / 16, rhi, 4)
+        if kind == kinds[0]:
+            m1 = _rad_spec(cls, rlo, dr, n, other_R())
+        elif kind == kinds[1]:
+            m1 = _rad_spec("SphericalSymGrid" if cls == "PolarSymGrid" else "PolarSymGrid", rlo, dr, n, R)
+        elif kind == kinds[2]:
+            m1 = _rad_spec(cls, rlo + rng.choice([0.25, 1.0, 2.5]), dr, n, R)
+        else:
+            m1 = _rad_spec(cls, rlo, dr * rng.choice([0.5, 2.0]), n, R)
+        groups.append({"kind": kind, "family": "radial",
+                       "members": [_rad_spec(cls, rlo, dr, n, R), m1] + [_rad_spec(cls, rlo, dr, n, other_R())
+                                                                             for _ in range(12 if len(groups) == n0 else 2)]})
+    return groups
+
+
+def seq_property_oracle(spec, grid, field, ems):
+    """the property oracle (state-free reference) on the results of a step of a sequence, for inputs known to satisfy the preconditions"""
+    if not spec.get("valid"):
+        return None
+    mask = field.data > 0.5
+    for name, em in ems.items():
+        if em is None:
+            continue
+        if spec["family"] == "cartesian":
+            f = oracle_cart(grid, [(c, r) for c, r in spec["droplets"]], em)
+        elif spec["family"] == "cylindrical":
+            f = oracle_cyl(grid, [(c[2], r) for c, r in spec["droplets"]], mask, em)
+        else:
+            f = oracle_radial(grid, spec["droplets"][0][1], mask, em, judge_volume=(grid.axes_bounds[0][0] == 0))
+        if f:
+            return f"{name}: {f}"
+    return None
+
+
 def check(ctx: vlib.Ctx) -> int:
     rng = random.Random(ctx.seed)
     MINR_LITS.clear()
     MINR_META.clear()
+    import time
+    t_stage = [ctx.t0]
+    stages = ctx.extra.setdefault("stage_wall_s", {})
+
+    def stage(name):
+        t_stage.append(time.time())
+        stages[name] = round(t_stage[-1] - t_stage[-2], 2)
+    seq_rng = random.Random(ctx.seed * 7919 + 1)   # own stream (derived from ctx.seed): the other streams stay as they were
+    groups = seq_groups(ctx, seq_rng)
+    seq_procs = lc.seq_start_references(groups)    # two fresh interpreters, running while the other streams are checked
+    stage("sequence groups generated, reference interpreters started")
     ok = vlib.prove(ctx, ["Proofs/C01.vo", "Proofs/LabelClients.vo", "Proofs/C01Cyl.vo", "Proofs/C01CylPer.vo", "Proofs/C01Multi.vo", "Proofs/C01CylMulti.vo", "Proofs/BallCount.vo",
                           "Model/LocateCases.vo"], gens=[])
     # R-layer part (separation => located spheres do not overlap), over the generated radius_from_volume
@@ -453,13 +624,16 @@ def check(ctx: vlib.Ctx) -> int:
                 fails.append({"what": f, "input": {**inp, "dtype": dt, "minimal_radius": mrk}})
         if rec is not None:
             lc.count_removals(ctx, rec["M"], [c[2] for c in rec["cands"]], rec["out"])
-            lits.append(cart_lit(grid, drops, labels, rec))
-            meta.append(inp)
+            lit = lc.safe_lit(lambda: cart_lit(grid, drops, labels, rec), fails, inp)
+            if lit is not None:
+                lits.append(lit)
+                meta.append(inp)
     ctx.sample(meta[1] if len(meta) > 1 else {})
     if ok:
         bad = vlib.run_cases(ctx, "cart", header, lits, "c01_cart_agree", shard=120)
         for b in bad[:3]:
             ctx.broken.append(f"correspondence render+locate (Cartesian): model and implementation differ on {meta[b]}")
+    stage("proofs + Cartesian stream incl. in-Coq correspondence")
     # ---- radial
     lits, meta = [], []
     sus_seen, sus_volume_off, sus_example = 0, 0, None
@@ -494,10 +668,12 @@ def check(ctx: vlib.Ctx) -> int:
             f = second_call_failure(field, em, dt, mrk)
             if f:
                 fails.append({"what": f, "input": {**inp, "dtype": dt, "minimal_radius": mrk}})
-        out = f"(Some {vlib.qlit(em[0].radius)})" if len(em) else "None"
-        lits.append("(%s, {| rd_lo := %s; rd_dr := %s; rd_mask := %s; rd_out := %s |})"
-                    % (vlib.qlit(R), vlib.qlit(rlo), vlib.qlit((rhi - rlo) / grid.shape[0]), vlib.listlit(mask.tolist(), vlib.blit), out))
-        meta.append(inp)
+        lit = lc.safe_lit(lambda: "(%s, {| rd_lo := %s; rd_dr := %s; rd_mask := %s; rd_out := %s |})"
+                          % (vlib.qlit(R), vlib.qlit(rlo), vlib.qlit((rhi - rlo) / grid.shape[0]), vlib.listlit(mask.tolist(), vlib.blit),
+                             f"(Some {vlib.qlit(em[0].radius)})" if len(em) else "None"), fails, inp)
+        if lit is not None:
+            lits.append(lit)
+            meta.append(inp)
     for sus in SUSPECTED:
         ctx.notes.append(f"SUSPECTED {sus['id']} (executed, NOT judged, waiting for a decision): {sus['what']}. This run: {sus_seen} inputs with inner "
                          f"radius > 0 passed the count / centre / radius clauses and the in-Coq correspondence, {sus_volume_off} of them violate the "
@@ -552,19 +728,30 @@ def check(ctx: vlib.Ctx) -> int:
             if f:
                 fails.append({"what": f, "input": {**inp, "dtype": dt, "minimal_radius": mrk}})
         ds = vlib.listlit([f"({vlib.qlit(c)}, {vlib.qlit(R)})" for c, R in drops])
-        lits.append(f"({ds}, {c02.cyl_case_lit(grid, lab_pad, lab, cands, out, M)})")
-        meta.append(inp)
+        lit = lc.safe_lit(lambda: f"({ds}, {c02.cyl_case_lit(grid, lab_pad, lab, cands, out, M)})", fails, inp)
+        if lit is not None:
+            lits.append(lit)
+            meta.append(inp)
     ctx.sample(meta[0] if meta else {})
     if ok:
         bad = vlib.run_cases(ctx, "cyl", header, lits, "c01_cyl_agree", shard=150)
         for b in bad[:3]:
             ctx.broken.append(f"correspondence render+locate (cylindrical): model and implementation differ on {meta[b]}")
+    seq_fails = lc.sequence_oracle(ctx, seq_rng, groups, seq_procs, seq_property_oracle)
+    stage("radial + cylindrical streams incl. in-Coq correspondence")
+    ctx.count("sequence_failures", len(seq_fails))
+    stage("sequence stream (collect references, schedules on reused objects)")
+    fails = seq_fails[:2] + fails + seq_fails[2:]
     if ok and MINR_LITS:
         hdr = "From Coq Require Import QArith ZArith List.\nImport ListNotations.\nFrom PD Require Import Model.Overlap Model.OverlapCases.\nLocal Open Scope Q_scope.\n"
         bad = vlib.run_cases(ctx, "minr", hdr, MINR_LITS, "rs_agree", shard=700)
         for b in bad[:3]:
             ctx.broken.append(f"correspondence minimal_radius filter: model (remove_small) and implementation differ on {MINR_META[b]}")
     ctx.count("minimal_radius_filter_cases_in_coq", len(MINR_LITS))
+    ctx.notes.append("sequence stream (input dimension 8): both locators on reused objects; reference = the same input with fresh objects, evaluated "
+                     "first in one of two fresh interpreters (the other one evaluates it after the input sharing its aggregates; a difference between "
+                     "the two is a failure as well) + the property oracle for the members known to satisfy the preconditions; Python only (no "
+                     "translator covers the locators: the models are hand-written, so there is no generated code that could fail closed on module state)")
     ctx.notes.append("second calls (image handed over as float32 / int64 / uint8 / bool data, minimal_radius boundary values) are compared bitwise with "
                      "the reference call resp. with its droplets of radius > minimal_radius (documented filter of Emulsion.remove_small) in Python; "
                      "the filter for finite minimal_radius is also compared with Model/Overlap.v remove_small inside Coq (stream minr); "
@@ -579,6 +766,10 @@ def replay(path: str) -> int:
     obj = json.load(open(path))
     print(json.dumps(obj, indent=1)[:1500])
     inp = obj.get("input", {})
+    if inp.get("sequence"):
+        f = lc.replay_sequence(inp, seq_property_oracle)
+        print("sequence oracle on the current tree:", f or "holds")
+        return 1 if f else 0
     fam = inp.get("family")
     f = None
     if fam == "cartesian":
